@@ -9,11 +9,17 @@ package vmm
 //@ mode bv
 
 // ---- ghost call log of the page-mapping primitive (C07) ------------------------
+// pageTables stands for the contents of page-table memory: what the mapping
+// primitives change. Callers outside vmm see ordinary memory (`mem`) unchanged
+// by mapping calls.
+//@ ghost pageTables uintptr
 //@ ghost mapCalls uintptr
 //@ ghost mapLogPage map[uintptr]mm.Page
 //@ ghost mapLogFrame map[uintptr]mm.Frame
 //@ ghost mapLogFlags map[uintptr]PageTableEntryFlag
 
+// errors that originate in the vmm layer (uninterpreted; other packages assume their private errors are not among them)
+//@ ufun vmmError(e *kernel.Error) bool
 //@ spec pageOf(a uintptr) mm.Page = mm.Page((a &^ 4095) >> 12)
 //@ pred wfReserve() = earlyReserveLastUsed <= tempMappingAddr && earlyReserveLastUsed&0xfff == 0
 
@@ -34,17 +40,18 @@ package vmm
 // it may fail. (Its effect on the page tables is the subject of C04.)
 //@ func Map(page mm.Page, frame mm.Frame, flags PageTableEntryFlag) (err *kernel.Error)
 //@   trusted
-//@   modifies mapCalls, mapLogPage, mapLogFrame, mapLogFlags, mem
+//@   modifies mapCalls, mapLogPage, mapLogFrame, mapLogFlags, pageTables
 //@   ensures mapCalls == old(mapCalls) + 1
 //@   ensures mapLogPage == upd(old(mapLogPage), old(mapCalls), page)
 //@   ensures mapLogFrame == upd(old(mapLogFrame), old(mapCalls), frame)
 //@   ensures mapLogFlags == upd(old(mapLogFlags), old(mapCalls), flags)
+//@   ensures err != nil ==> vmmError(err)
 
 //@ func MapRegion(frame mm.Frame, size uintptr, flags PageTableEntryFlag) (page mm.Page, err *kernel.Error)
 //@   property C07
 //@   requires wfReserve()
-//@   requires mapCalls < 0x10000000000000
-//@   modifies earlyReserveLastUsed, mapCalls, mapLogPage, mapLogFrame, mapLogFlags, mem
+//@   requires mapCalls < 0x4000000000000000
+//@   modifies earlyReserveLastUsed, mapCalls, mapLogPage, mapLogFrame, mapLogFlags, pageTables
 //@   ensures wf: wfReserve()
 //@   ensures count: err == nil ==> (mapCalls - old(mapCalls))*4096 >= size && (mapCalls - old(mapCalls))*4096 - size < 4096
 //@   ensures region: err == nil ==> uintptr(page) << 12 == earlyReserveLastUsed && old(earlyReserveLastUsed) - earlyReserveLastUsed == (mapCalls - old(mapCalls))*4096
@@ -60,11 +67,13 @@ package vmm
 
 //@ func IdentityMapRegion(startFrame mm.Frame, size uintptr, flags PageTableEntryFlag) (page mm.Page, err *kernel.Error)
 //@   property C07
-//@   requires mapCalls < 0x10000000000000
+//@   requires mapCalls < 0x4000000000000000
 //@   requires nowrap: size <= 0xfffffffffffff000 && uintptr(startFrame) <= 0xfffffffffffff && uintptr(startFrame) + ((size + 4095) >> 12) >= uintptr(startFrame)
-//@   modifies mapCalls, mapLogPage, mapLogFrame, mapLogFlags, mem
+//@   modifies mapCalls, mapLogPage, mapLogFrame, mapLogFlags, pageTables
 //@   ensures count: err == nil ==> (mapCalls - old(mapCalls))*4096 >= size && (mapCalls - old(mapCalls))*4096 - size < 4096
 //@   ensures start: err == nil ==> page == mm.Page(startFrame)
+//@   ensures errs: err != nil ==> vmmError(err)
+//@   ensures bound: mapCalls >= old(mapCalls) && mapCalls - old(mapCalls) <= (size + 4095) >> 12
 //@   ensures calls: err == nil ==> forall(k, uintptr, k < mapCalls - old(mapCalls) ==> mapLogPage[old(mapCalls)+k] == mm.Page(startFrame) + mm.Page(k) && mapLogFrame[old(mapCalls)+k] == startFrame + mm.Frame(k) && mapLogFlags[old(mapCalls)+k] == flags)
 //@   ensures older: forall(k, uintptr, k < old(mapCalls) ==> mapLogPage[k] == old(mapLogPage)[k] && mapLogFrame[k] == old(mapLogFrame)[k])
 //@   loop 1 (curPage < startPage+pageCount) invariant curPage >= startPage && curPage <= startPage+pageCount
@@ -72,3 +81,8 @@ package vmm
 //@   loop 1 invariant log: forall(k, uintptr, k < mapCalls - old(mapCalls) ==> mapLogPage[old(mapCalls)+k] == startPage + mm.Page(k) && mapLogFrame[old(mapCalls)+k] == startFrame + mm.Frame(k) && mapLogFlags[old(mapCalls)+k] == flags)
 //@   loop 1 invariant older: forall(k, uintptr, k < old(mapCalls) ==> mapLogPage[k] == old(mapLogPage)[k] && mapLogFrame[k] == old(mapLogFrame)[k])
 //@   loop 1 decreases startPage + pageCount - curPage
+
+// Unmap, as seen by callers outside vmm: it only changes page-table memory.
+//@ func Unmap(page mm.Page) (err *kernel.Error)
+//@   trusted
+//@   modifies pageTables
